@@ -96,7 +96,11 @@ def repairDir (ps pps : Nat) (crc : Crc) (dir : Dir) (c : Corruption) : RepairOu
   | some (_, seg) =>
     let segs := rewrite ps pps crc (keptRecs ps crc seg c.off)
     let numbered := (List.range segs.length).zip segs |>.map fun (i, b) => (c.seg + i, b)
-    ⟨true, older ++ numbered ++ [(c.seg + segs.length, [])]⟩
+    -- `CreateSegment(dir, cerr.Segment+1)` opens with O_CREATE|O_APPEND: when the re-logged records did not
+    -- fit one segment (a record larger than a whole segment) that file already exists and simply becomes
+    -- the active one; otherwise it is a new empty file.  (More than two rewritten segments: not modelled.)
+    let next : Dir := if segs.length ≥ 2 then [] else [(c.seg + segs.length, [])]
+    ⟨true, older ++ numbered ++ next⟩
 
 /-! ### `Head.Init` + `DB.open` at log level -/
 
